@@ -102,24 +102,24 @@ theorem writeOnly_null_rejected :
 /-! ### Decoding of a response header (decodeValue with the header decoder, simple style) -/
 
 /-- A header schema without `type` never yields a value (the origin of finding F-C08-1). -/
-theorem decodeHeader_untyped (s : Sch) (raw : String) (d : Dec) (h : s.core.ty = .any) :
-    decodeHeader s raw d = .nil := by
+theorem decodeHeader_untyped (s : Sch) (ex : Bool) (raw : String) (c : Dec) (h : s.core.ty = .any) :
+    decodeHeader s ex raw c = .nil := by
   simp [decodeHeader, h]
 
 /-- A header of primitive type yields no value exactly when its text is empty. -/
-theorem decodeHeader_prim_nil_iff (s : Sch) (raw : String) (d : Dec)
+theorem decodeHeader_prim_nil_iff (s : Sch) (ex : Bool) (raw : String) (c : Dec)
     (h : s.core.ty = .integer ∨ s.core.ty = .boolean ∨ s.core.ty = .string) :
-    decodeHeader s raw d = .nil ↔ raw = "" := by
+    decodeHeader s ex raw c = .nil ↔ raw = "" := by
   unfold decodeHeader parsePrim
   rcases h with h | h | h <;> simp only [h] <;> by_cases hr : raw = "" <;> simp [hr] <;> split <;> simp
 
 /-- A non-empty header of type string is its text. -/
-theorem decodeHeader_string (s : Sch) (raw : String) (d : Dec) (h : s.core.ty = .string) (hr : raw ≠ "") :
-    decodeHeader s raw d = .val (.str raw) := by
+theorem decodeHeader_string (s : Sch) (ex : Bool) (raw : String) (c : Dec) (h : s.core.ty = .string) (hr : raw ≠ "") :
+    decodeHeader s ex raw c = .val (.str raw) := by
   simp [decodeHeader, parsePrim, h, hr]
 
 /-- The decoded value of a typed header has the declared type. -/
-theorem decodeHeader_typed (s : Sch) (raw : String) (d : Dec) (v : J) (h : decodeHeader s raw d = .val v) :
+theorem decodeHeader_typed (s : Sch) (ex : Bool) (raw : String) (c : Dec) (v : J) (h : decodeHeader s ex raw c = .val v) :
     (s.core.ty = .integer → ∃ n, v = .num n) ∧ (s.core.ty = .boolean → ∃ b, v = .bool b) ∧
     (s.core.ty = .string → v = .str raw) ∧ s.core.ty ≠ .any := by
   unfold decodeHeader parsePrim at h
@@ -149,12 +149,12 @@ theorem decodeHeader_typed (s : Sch) (raw : String) (d : Dec) (v : J) (h : decod
     simp [ht] at h
 
 /-- On a document that passes validation (array schemas carry `items`) the header decoder dereferences no nil. -/
-theorem decodeHeader_no_panic (s : Sch) (raw : String) (d : Dec)
-    (hi : s.core.ty = .array → s.items ≠ .none) (hd : d ≠ .panic) : decodeHeader s raw d ≠ .panic := by
+theorem decodeHeader_no_panic (s : Sch) (ex : Bool) (raw : String) (c : Dec)
+    (hi : s.core.ty = .array → s.items ≠ .none) (hc : c ≠ .panic) : decodeHeader s ex raw c ≠ .panic := by
   unfold decodeHeader
   cases ht : s.core.ty with
   | any => simp
-  | object => simpa using hd
+  | object => simpa using decodeObject_ne_panic s ex raw c hc
   | array =>
     cases hit : s.items with
     | none => exact absurd hit (hi ht)
@@ -170,19 +170,19 @@ theorem decodeHeader_no_panic (s : Sch) (raw : String) (d : Dec)
 
 /-- **Array headers**: when every comma-separated item parses as a primitive of the items type, the value is the
 array of the parsed items. -/
-theorem decodeHeader_array_vals (s it : Sch) (raw : String) (d : Dec) (x : J) (xs : List J)
+theorem decodeHeader_array_vals (s it : Sch) (ex : Bool) (raw : String) (c : Dec) (x : J) (xs : List J)
     (ht : s.core.ty = .array) (hit : s.items = .some it) (h : ItemsParse it.core.ty (splitComma raw) (x :: xs)) :
-    decodeHeader s raw d = .val (.arr (JL.ofList (x :: xs))) := by
+    decodeHeader s ex raw c = .val (.arr (JL.ofList (x :: xs))) := by
   unfold decodeHeader
   simp only [ht, hit, parseArr_vals it _ _ h, JL.ofList]
 
 /-- **Array headers**: the first item that does not parse to a value decides — an empty or untyped item makes the
 whole header "no value", an unparsable one a decoding error. -/
-theorem decodeHeader_array_first_bad (s it : Sch) (raw : String) (d : Dec) (pre : List String) (xs : List J)
+theorem decodeHeader_array_first_bad (s it : Sch) (ex : Bool) (raw : String) (c : Dec) (pre : List String) (xs : List J)
     (v : String) (post : List String) (b : Dec)
     (ht : s.core.ty = .array) (hit : s.items = .some it) (hsplit : splitComma raw = pre ++ v :: post)
     (hpre : ItemsParse it.core.ty pre xs) (hv : parsePrim it.core.ty v = b) (hb : ∀ x, b ≠ .val x) :
-    decodeHeader s raw d = b := by
+    decodeHeader s ex raw c = b := by
   unfold decodeHeader
   simp only [ht, hit, hsplit, parseArr_first_bad it pre xs v post b hpre hv hb]
   cases b with
@@ -190,6 +190,37 @@ theorem decodeHeader_array_first_bad (s it : Sch) (raw : String) (d : Dec) (pre 
   | err => rfl
   | nil => rfl
   | panic => rfl
+
+/-- **Object headers**: a text that is not a list of name/value pairs (an odd number of comma-separated pieces, or,
+exploded, a piece that is not `name=value`) is a decoding error. -/
+theorem decodeObject_malformed (s : Sch) (ex : Bool) (raw : String) (c : Dec)
+    (h : propsFromString ex raw = none) : decodeObject s ex raw c = .err := by
+  simp [decodeObject, h]
+
+/-- Not exploded, the pieces alternate between names and values: malformed exactly when their number is odd
+(in particular for the empty text, which is one empty piece). -/
+theorem propsFromString_plain_none_iff (raw : String) :
+    propsFromString false raw = none ↔ (splitComma raw).length % 2 = 1 := by
+  simp [propsFromString, pairUp_none_iff_odd]
+
+/-- Of a repeated name the last value counts (the pairs are stored into a Go map). -/
+theorem last_duplicate_wins (k v : String) (ps : List (String × String)) : lastVal k (ps ++ [(k, v)]) = some v :=
+  lastVal_append_same k v ps
+
+/-- Without an additionalProperties schema the decoded object has entries for declared properties only: names
+outside the schema are dropped before validation (so `additionalProperties: false` never fires on a header). -/
+theorem decodeObject_undeclared_dropped (s : Sch) (ex : Bool) (raw : String) (c : Dec) (pairs : List (String × String))
+    (kvs : KVs) (hp : propsFromString ex raw = some pairs) (hc : emptyNameCorner s pairs = false) (ha : s.addl = .none)
+    (h : decodeObject s ex raw c = .val (.obj kvs)) (k : String) (hk : (kvs.get k).isSome = true) :
+    (s.props.lookup k).isSome = true := by
+  unfold decodeObject at h
+  simp only [hp, hc, Bool.false_eq_true, if_false] at h
+  cases hb : buildDeclared pairs s.props [] with
+  | none => simp [hb] at h
+  | some d =>
+    simp only [hb, ha, Dec.val.injEq, J.obj.injEq] at h
+    subst h
+    exact buildDeclared_keys pairs s.props [] d hb k hk
 
 def intHdrSchema : Sch := .mk { ty := .integer } .nil .none .none
 def arrHdrSchema (it : OSch) : Sch := .mk { ty := .array } .nil .none it
@@ -207,20 +238,53 @@ def Dec.isNums (ns : List Int) : Dec → Bool | .val (.arr xs) => xs.nums == ns.
 /-- strconv.ParseInt base 10 / 64 bit and strconv.ParseBool on the texts the differential run also replays -/
 example : ([("5", 5), ("+5", 5), ("-0", 0), ("007", 7), ("-3", -3), ("9223372036854775807", 9223372036854775807),
     ("-9223372036854775808", -9223372036854775808)].all
-    (fun rn => (decodeHeader intHdrSchema rn.1 .err).isNum rn.2)) = true := by decide
+    (fun rn => (decodeHeader intHdrSchema false rn.1 .err).isNum rn.2)) = true := by decide
 example : (["1_0", "0x10", " 5", "5 ", "-", "+", "1e3", "9223372036854775808", "-9223372036854775809"].all
-    (fun r => (decodeHeader intHdrSchema r .err).isErr)) = true := by decide
+    (fun r => (decodeHeader intHdrSchema false r .err).isErr)) = true := by decide
 example : (["1", "t", "T", "TRUE", "true", "True"].map parseBoolWord) = List.replicate 6 (some true) ∧
     (["0", "f", "F", "FALSE", "false", "False"].map parseBoolWord) = List.replicate 6 (some false) ∧
     (["tRue", "yes", " true", "01"].map parseBoolWord) = List.replicate 4 none := by decide
-example : (decodeHeader (arrHdrSchema (.some intHdrSchema)) "1,2" .err).isNums [1, 2] = true ∧
-    (decodeHeader (arrHdrSchema (.some intHdrSchema)) "1,,2" .err).isNil = true ∧
-    (decodeHeader (arrHdrSchema (.some intHdrSchema)) "x," .err).isErr = true ∧
-    (decodeHeader (arrHdrSchema (.some intHdrSchema)) ",x" .err).isNil = true ∧
-    (decodeHeader (arrHdrSchema (.some intHdrSchema)) "" .err).isNil = true ∧
-    (decodeHeader (arrHdrSchema (.some (.mk {} .nil .none .none))) "1,2" .err).isNil = true ∧
-    (decodeHeader (arrHdrSchema .none) "1,2" .err).isPanic = true ∧
-    (decodeHeader (arrHdrSchema .none) ",1" .err).isNil = true := by decide
+example : (decodeHeader (arrHdrSchema (.some intHdrSchema)) false "1,2" .err).isNums [1, 2] = true ∧
+    (decodeHeader (arrHdrSchema (.some intHdrSchema)) false "1,,2" .err).isNil = true ∧
+    (decodeHeader (arrHdrSchema (.some intHdrSchema)) false "x," .err).isErr = true ∧
+    (decodeHeader (arrHdrSchema (.some intHdrSchema)) false ",x" .err).isNil = true ∧
+    (decodeHeader (arrHdrSchema (.some intHdrSchema)) false "" .err).isNil = true ∧
+    (decodeHeader (arrHdrSchema (.some (.mk {} .nil .none .none))) false "1,2" .err).isNil = true ∧
+    (decodeHeader (arrHdrSchema .none) false "1,2" .err).isPanic = true ∧
+    (decodeHeader (arrHdrSchema .none) false ",1" .err).isNil = true := by decide
+
+def Dec.objIs (want : List (String × J)) : Dec → Bool
+  | .val (.obj kvs) => want.all (fun kw => match kvs.get kw.1, kw.2 with
+      | some (.str a), .str b => a == b | some (.num a), .num b => a == b | some (.bool a), .bool b => a == b
+      | _, _ => false) && KVs.len kvs == want.length
+  | _ => false
+where KVs.len : KVs → Nat | .nil => 0 | .cons _ _ r => KVs.len r + 1
+
+def objHdrSchema : Sch :=
+  .mk { ty := .object }
+    (.cons "m" (.mk { ty := .integer } .nil .none .none) (.cons "n" (.mk { ty := .string } .nil .none .none)
+      (.cons "u" (.mk {} .nil .none .none) (.cons "o" (.mk { ty := .object } .nil .none .none)
+        (.cons "a" (.mk { ty := .array } .nil .none .none) .nil))))) .none .none
+def objAddlSchema : Sch :=
+  .mk { ty := .object } (.cons "m" (.mk { ty := .integer } .nil .none .none) .nil)
+    (.some (.mk { ty := .integer } .nil .none .none)) .none
+
+/-- DecodeObject on the texts the differential run also replays -/
+example : (decodeHeader objHdrSchema false "m,4,n,x" .err).objIs [("m", .num 4), ("n", .str "x")] = true ∧
+    (decodeHeader objHdrSchema false "n,x,n,y" .err).objIs [("n", .str "y")] = true ∧
+    (decodeHeader objHdrSchema false "q,1" .err).objIs [] = true ∧
+    (decodeHeader objHdrSchema false "u,1,n," .err).objIs [] = true ∧
+    (decodeHeader objHdrSchema false "o,1" .err).objIs [("o", .str "1")] = true ∧
+    (decodeHeader objHdrSchema false "a,1" .err).isErr = true ∧
+    (decodeHeader objHdrSchema false "m,zz" .err).isErr = true ∧
+    (decodeHeader objHdrSchema false "m" .err).isErr = true ∧
+    (decodeHeader objHdrSchema false "" .err).isErr = true ∧
+    (decodeHeader objHdrSchema false "," .err).objIs [] = true ∧
+    (decodeHeader objHdrSchema true "m=4,n=x" .err).objIs [("m", .num 4), ("n", .str "x")] = true ∧
+    (decodeHeader objHdrSchema true "m=4=5" .err).isErr = true ∧
+    (decodeHeader objAddlSchema false "m,4,q,7" .err).objIs [("m", .num 4), ("q", .num 7)] = true ∧
+    (decodeHeader objAddlSchema false "q,x" .err).isErr = true ∧
+    (decodeHeader objAddlSchema false "," .err).isErr = true := by decide
 
 /-! ### ValidateResponse -/
 
@@ -510,13 +574,13 @@ theorem genReg_text_decoders :
 
 /-! ### Witnesses of the exclusion classes (model ≠ spec on a concrete input inside the class) -/
 
-def strHdr (s : Sch) (d : Dec) : Hdr := { name := "X-A", required := false, schema := some s, objDec := d }
+def strHdr (s : Sch) : Hdr := { name := "X-A", required := false, schema := some s, explode := false }
 def inp (resps : List (String × Resp)) (hdrs : List (String × String)) (d : Dec) : Input :=
   { method := "GET", status := 200, responses := resps, hdrs := hdrs, body := "", readFails := false, bodyDec := d }
 
 /-- `X-A: abc` against the header schema `{}`: rejected ("Value is not nullable") although every value satisfies `{}`. -/
 theorem witness_HdrDecodedNil :
-    let i := inp [("200", ⟨[strHdr (.mk {} .nil .none .none) .nil], []⟩)] [("X-A", "abc")] .err
+    let i := inp [("200", ⟨[strHdr (.mk {} .nil .none .none)], []⟩)] [("X-A", "abc")] .err
     HdrDecodedNil id i = true ∧ (validateResponse id genReg {} i).err = some (.hdrSchema "X-A") ∧ acceptB id genReg {} i = true := by
   decide
 
@@ -527,7 +591,7 @@ def pwHdrSchema : Sch :=
 write-only is rejected by the model and by the spec, lies in no exclusion class, and is accepted again when the
 write-only checks are switched off. -/
 theorem header_writeOnly_rejected :
-    let i := inp [("200", ⟨[strHdr pwHdrSchema (.val (.obj (.cons "pw" (.str "x") .nil)))], []⟩)] [("X-A", "pw,x")] .err
+    let i := inp [("200", ⟨[strHdr pwHdrSchema], []⟩)] [("X-A", "pw,x")] .err
     Excluded id {} i = false ∧ (validateResponse id genReg {} i).err = some (.hdrSchema "X-A") ∧ acceptB id genReg {} i = false ∧
       (validateResponse id genReg { woOff := true } i).err = none ∧ acceptB id genReg { woOff := true } i = true := by
   decide
@@ -540,13 +604,13 @@ def pwReqHdrSchema : Sch :=
 /-- Regression (F-C08-2, second half): a header object that (rightly) omits its required write-only property is
 accepted by the model and by the spec. -/
 theorem header_required_writeOnly_absent_accepted :
-    let i := inp [("200", ⟨[strHdr pwReqHdrSchema (.val (.obj (.cons "n" (.str "x") .nil)))], []⟩)] [("X-A", "n,x")] .err
+    let i := inp [("200", ⟨[strHdr pwReqHdrSchema], []⟩)] [("X-A", "n,x")] .err
     Excluded id {} i = false ∧ (validateResponse id genReg {} i).err = none ∧ acceptB id genReg {} i = true := by
   decide
 
 /-- `X-A: 1,2` against the header schema `{type: array}` (no `items`): nil dereference. -/
 theorem witness_HdrArrayNoItems :
-    let i := inp [("200", ⟨[strHdr (arrHdrSchema .none) .err], []⟩)] [("X-A", "1,2")] .err
+    let i := inp [("200", ⟨[strHdr (arrHdrSchema .none)], []⟩)] [("X-A", "1,2")] .err
     HdrArrayNoItems id i = true ∧ (validateResponse id genReg {} i).err = some (.hdrPanic "X-A") ∧
       acceptB id genReg {} i = false := by
   decide
@@ -569,8 +633,8 @@ theorem writeOnly_null_rejected_in_body :
 /-! ### Non-vacuity: inputs outside every exclusion class on which both directions are exercised -/
 
 def exResp : Resp :=
-  ⟨[{ name := "X-B", required := true, schema := some (.mk { ty := .integer, maxI := some 9 } .nil .none .none), objDec := .err },
-    { name := "X-A", required := false, schema := some (.mk { ty := .string } .nil .none .none), objDec := .err }],
+  ⟨[{ name := "X-B", required := true, schema := some (.mk { ty := .integer, maxI := some 9 } .nil .none .none) },
+    { name := "X-A", required := false, schema := some (.mk { ty := .string } .nil .none .none) }],
    [("application/json", ⟨some (pwSchema false)⟩)]⟩
 
 def exIn (status : Int) (body : J) : Input :=
